@@ -394,10 +394,19 @@ func (store *KeyStore) WriteKeyFile(filename string, data []byte, mode os.FileMo
 	// We do quite a few filesystem manipulations to maintain old key data. Ensure that
 	// no data is lost due to errors or power faults. "filename" must contain either
 	// new key data on success, or old key data on error.
-	tmpFilename, err := store.fs.TempFile(filename, mode)
+	tmpFilename, err := store.fs.TempFile(filename+tempKeyFileSuffix, mode)
 	if err != nil {
 		return err
 	}
+	renamed := false
+	defer func() {
+		if !renamed {
+			// Do not leave the temporary file behind when the update fails.
+			if err := store.fs.Remove(tmpFilename); err != nil {
+				log.WithError(err).Warn("Failed to remove temporary key file")
+			}
+		}
+	}()
 	err = store.fs.WriteFile(tmpFilename, data, mode)
 	if err != nil {
 		return err
@@ -410,9 +419,25 @@ func (store *KeyStore) WriteKeyFile(filename string, data []byte, mode os.FileMo
 	if err != nil {
 		return err
 	}
+	renamed = true
 	// the previous key file has just become a historical one
 	store.forgetHistoricalPrivateKeyFilenames(filename)
 	return nil
+}
+
+// tempKeyFileSuffix is put between the name of a key file and the random part of the name of
+// the temporary file it is written to first. Key file names never contain it ("." is not
+// valid in client IDs), so what an interrupted update leaves behind can be told from key files.
+const tempKeyFileSuffix = ".tmp"
+
+// isTempKeyFile tells whether name is "<key file>.tmp<random digits>".
+func isTempKeyFile(name string) bool {
+	i := strings.LastIndex(name, tempKeyFileSuffix)
+	if i <= 0 {
+		return false
+	}
+	random := name[i+len(tempKeyFileSuffix):]
+	return random != "" && strings.Trim(random, "0123456789") == ""
 }
 
 func (store *KeyStore) backupHistoricalKeyFile(filename string) error {
@@ -801,6 +826,12 @@ func (store *KeyStore) describeDir(dirName string) ([]keystore.KeyDescription, e
 		}
 
 		if strings.HasSuffix(fileInfo.Name(), "old") {
+			continue
+		}
+
+		if isTempKeyFile(fileInfo.Name()) {
+			// left behind by an update of a key file that was interrupted before the rename
+			log.WithField("file", fileInfo.Name()).Warn("Ignoring temporary key file")
 			continue
 		}
 
